@@ -341,6 +341,10 @@ with tdead3 :=
   | |- tdead ?x (next ?y) => apply (tframe_dead C (fst (new_lock y _ _ _)) x (next y)); [tf3|apply new_lock_dead]
   end.
 
+Lemma tflag_lockid c x : c_tflag (c <| c_lockid := x |>) = c_tflag c. Proof. reflexivity. Qed.
+Lemma eflag_lockid c x : c_eflag (c <| c_lockid := x |>) = c_eflag c. Proof. reflexivity. Qed.
+Lemma data_lockid c x : c_data (c <| c_lockid := x |>) = c_data c. Proof. reflexivity. Qed.
+
 Lemma lock_step_shape s conn c :
   HD s -> C c -> (forall x, C (c <| c_lockid := x |>)) ->
   tframe C s (fst (fst (lock_step s conn c))) \/
@@ -367,10 +371,17 @@ Proof.
           by (pose proof (update_and_rearm_frame x k r c1) as F; rewrite E in F; cbn [fst] in F; apply F; [tdead3|auto]) end
   end.
   all: try (left; tf3; fail).
-  all: idtac "remaining". Show.
-  all: try (right; eexists _, _; split; [tf3|]; split; [reflexivity|]; split; [reflexivity|]; split; [reflexivity|];
-            split; [(left; reflexivity) || (right; eexists; reflexivity)|]; split; [reflexivity|];
-            split; [reflexivity|]; split; [reflexivity|]; split; [assumption|]; assumption).
+  all: try (exfalso; destruct (Ccore _ Cc) as (HA & HM & HE & HDa);
+            match goal with H : context [TF_REQUIRE_ACKED] |- _ =>
+              rewrite ?tflag_lockid in H; rewrite HA in H; rewrite ?andb_false_r in H; cbn [andb] in H; discriminate H end).
+  all: match goal with
+       | |- tframe _ _ (bump _ (updl (add_timeout (add_wait_lock (fst (new_lock ?s0 _ _ ?c1)) _ _) _) _ _)) \/ _ =>
+           right; exists s0, c1; lsplit;
+            [tf3|reflexivity|reflexivity|reflexivity|(left; reflexivity) || (right; eexists; reflexivity)
+            |reflexivity|reflexivity|reflexivity
+            |match goal with H : (0 <? c_timeout _) && _ = true |- _ => apply andb_prop in H; destruct H; assumption end
+            |assumption]
+       end.
 Qed.
 
 End Steps.
